@@ -537,7 +537,20 @@ def h_change_oid(eng, st, self_v, args, kwargs):
     cso.meta = dict(cso.meta)
     cso.meta["members"] = mm
     st.touch(cso)
+    # the entry that was bound in the index under the new oid is ousted: it loses the oid (proved on the real body by
+    # state_index.oid_assignment_maintains_index_and_pending_set, "the oid slot leads to the entry")
+    for other in oid_indexed_entries(st, self_v, sd):
+        if other.addr == ent.addr:
+            continue
+        oso = st.obj(side_of(st, other, sd))
+        same = zand(znot(isn), P.eq(st, oso.fields["_oid"], oid))
+        if not z3.is_false(same):
+            oso.fields["_oid"] = ite(same, NONE, oso.fields["_oid"])
+            st.touch(oso)
     havoc_other_entries(eng, st, self_v, ent, sd, ("oid", "changed"))
+    state = st.obj(self_v)
+    state.meta = dict(state.meta)
+    state.meta["indexed_oid"] = set(state.meta.get("indexed_oid", ())) | {(ent.addr, sd)}
     return eng.ok(st, NONE)
 
 
@@ -867,6 +880,15 @@ def indexed_entries(st, state_ref):
     return [e for e in known_entries(st, state_ref) if e.addr in idx]
 
 
+def oid_indexed_entries(st, state_ref, sd):
+    """entries known to be bound in the oid index of side `sd` under their current oid: assumed live entries and entries
+    whose oid on that side was assigned through the _change_oid contract"""
+    m = st.obj(state_ref).meta
+    idx = m.get("indexed", ())
+    idx2 = m.get("indexed_oid", ())
+    return [e for e in known_entries(st, state_ref) if e.addr in idx or (e.addr, sd) in idx2]
+
+
 def _b_assume_indexed(eng, st, recv, args, kwargs):
     """assume_indexed(state, ent): ent is a live entry of the state, i.e. (index invariant I3) it is found by
     lookup_oid / lookup_path under its current oid / path on each side"""
@@ -884,8 +906,10 @@ def h_lookup_oid(eng, st, self_v, args, kwargs):
     side, oid = args[0], args[1]
     sd = py_of(side)
     res = []
-    # an indexed entry with this oid is *the* entry found (I1 + I3)
-    owned = zor(*[P.eq(st, side_field(st, e, sd, "oid"), oid) for e in indexed_entries(st, self_v)])
+    # an entry bound in the index under this oid is *the* entry found (I1 + I3)
+    bound = oid_indexed_entries(st, self_v, sd)
+    bound_addrs = set(e.addr for e in bound)
+    owned = zor(*[P.eq(st, side_field(st, e, sd, "oid"), oid) for e in bound])
     # not found
     s0 = st.clone()
     if eng.feasible(s0, znot(owned)):
@@ -893,13 +917,16 @@ def h_lookup_oid(eng, st, self_v, args, kwargs):
         res.append((s0, (VAL, NONE)))
     if isinstance(oid, C) and oid.v is None:
         return res
-    # a known entry that carries this oid
+    # a known entry that carries this oid: the bound one if there is one, otherwise any
     for ent in known_entries(st, self_v):
         cond = P.eq(st, side_field(st, ent, sd, "oid"), oid)
+        if ent.addr not in bound_addrs:
+            cond = zand(cond, znot(owned))
         if z3.is_false(cond) or not eng.feasible(st, cond):
             continue
         s1 = st.clone()
         s1.assume(cond)
+        _mark_oid_bound(s1, self_v, ent, sd)
         res.append((s1, (VAL, ent)))
     # some other entry
     s2 = st
@@ -909,11 +936,16 @@ def h_lookup_oid(eng, st, self_v, args, kwargs):
     ent = _fresh_entry(eng, s2, self_v, "found_by_oid")
     so = s2.obj(side_of(s2, ent, sd))
     so.fields["_oid"] = oid
-    for other in known_entries(s2, self_v):
-        if other.addr != ent.addr:
-            pass
+    _mark_oid_bound(s2, self_v, ent, sd)
     res.append((s2, (VAL, ent)))
     return res
+
+
+def _mark_oid_bound(st, state_ref, ent, sd):
+    """the entry was found through the oid index of side sd: it is bound there (a second look-up finds it again)"""
+    so = st.obj(state_ref)
+    so.meta = dict(so.meta)
+    so.meta["indexed_oid"] = set(so.meta.get("indexed_oid", ())) | {(ent.addr, sd)}
 
 
 def _entries_abslist(eng, st, state_ref, name, constrain):
@@ -1175,6 +1207,10 @@ def make_stub(name, results=("FINISHED", "PUNT", "REQUEUE"), may_raise=True, hav
         for i, rname in enumerate(results):
             if rname == "entry":
                 out.append((k == i, _fresh_entry(eng, st, state, short + ".ent")))
+            elif rname == "str":
+                out.append((k == i, P.fresh("str", short + ".str")))
+            elif rname == "str_pair":
+                out.append((k == i, T([P.fresh("str", short + ".a"), P.fresh("str", short + ".b")])))
             else:
                 out.append((k == i, vals[rname]))
         res.append((st, (VAL, mk_union(out))))
@@ -1291,6 +1327,40 @@ def auto_havoc_object(eng, st, addr, fields=None):
     raise OutOfSubset("abstract loop writes an object the verifier cannot havoc (kind %s, tag %s)" % (o.kind, tag))
 
 
+def value_kind(v):
+    """a coarse type signature used to merge the example values of a loop variable"""
+    if isinstance(v, C):
+        return ("C", type(v.v).__name__)
+    if isinstance(v, (S, O)):
+        return (type(v).__name__, v.sort)
+    if isinstance(v, R):
+        return ("R", v.addr)
+    if isinstance(v, T):
+        return ("T", tuple(value_kind(x) for x in v.items))
+    if isinstance(v, U):
+        return ("U", tuple(sorted(set(str(value_kind(b)) for _, b in v.alts))))
+    return ("?", type(v).__name__)
+
+
+def havoc_examples(eng, st, examples, name):
+    """an arbitrary value of any of the kinds seen in `examples` (initial value and values assigned in a probe iteration)"""
+    flat = []
+    for v in examples:
+        for _, b in alts(v):
+            flat.append(b)
+    seen, picks = set(), []
+    for b in flat:
+        k = value_kind(b)
+        if k not in seen:
+            seen.add(k)
+            picks.append(b)
+    if len(picks) == 1:
+        return havoc_value(eng, st, picks[0], name)
+    sel = z3.Int(P.fresh_name("loopvar." + name + "?kind"))
+    st.axiom(z3.And(sel >= 0, sel < len(picks)))
+    return mk_union([(sel == i, havoc_value(eng, st, b, name)) for i, b in enumerate(picks)])
+
+
 def havoc_value(eng, st, v, name):
     """an arbitrary value of the same kind as v (for locals assigned inside an abstract loop)"""
     n = P.fresh_name("loopvar." + name)
@@ -1308,6 +1378,10 @@ def havoc_value(eng, st, v, name):
         return named({"bool": "bool", "int": "int", "real": "real", "str": "str"}[v.sort], n)
     if isinstance(v, R):
         return v
+    if isinstance(v, O):
+        return P.fresh(v.sort, n)
+    if isinstance(v, T):
+        return T([havoc_value(eng, st, x, name) for x in v.items])
     if isinstance(v, U):
         return mk_union([(z3.Int(n + "?alt") == i, havoc_value(eng, st, b, name) if not isinstance(b, R) else b)
                          for i, (g, b) in enumerate(v.alts)])
